@@ -258,6 +258,36 @@ def gen_cases(ctx, extra_bias=None):
         cases.append(sysc(ci("v1unstake", []), amt=10000 * AERGO, bno=300000))
         cases.append(sysc(ci("v1unstake", []), amt=13000 * AERGO, snd=1, bno=300001))
         cases.append(sysc(ci("v1voteBP", ps[:1]), bno=400000))
+    # special account names (DecodeAddress accepts them), a registered 12-character name, the sender itself and the
+    # contract accounts in EVERY address-typed argument position, each on a fresh state, through admission and execution
+    special = ["aergo.name", "aergo.system", "aergo.enterprise", "aergo.vault", "abcdefghijkl", "@A0", "@A1"]
+    for addr in special:
+        for snd in (0, 1):
+            gi = newg()                                  # name-contract owner still unset
+            cases.append(mk(gi, "aergo.name", ci("v1setOwner", [addr]), snd=snd))
+            cases.append(mk(gi, "aergo.name", ci("v1setOwner", ["@A2"]), snd=snd))
+            cases.append(mk(gi, "aergo.name", ci("v1createName", ["mnopqrstuvwx"]), amt=AERGO, snd=snd))
+        gi = newg()
+        cases += NAME_SETUP(gi)
+        cases.append(mk(gi, "aergo.name", ci("v1setOwner", [addr]), snd=1))
+        cases.append(mk(gi, "aergo.name", ci("v1updateName", ["abcdefghijkl", addr]), amt=AERGO))
+        cases.append(mk(gi, "aergo.name", ci("v1updateName", ["abcdefghijkl", "@A1"]), amt=AERGO))
+        cases.append(mk(gi, "aergo.name", ci("v1createName", [addr if len(addr) == 12 else "abcdefghijkl"]), amt=AERGO, snd=1))
+        gi = newg()
+        cases += ENT_SETUP(gi)
+        for cmd in ("appendAdmin", "removeAdmin"):
+            cases.append(mk(gi, "aergo.enterprise", ci(cmd, [addr], "name", "args")))
+        cases.append(mk(gi, "aergo.enterprise", ci("setConf", ["accountwhite", addr, "@A0"], "name", "args")))
+        cases.append(mk(gi, "aergo.enterprise", ci("enableConf", ["accountwhite", True], "name", "args")))
+        cases.append(mk(gi, "aergo.enterprise", ci("appendAdmin", ["@A1"], "name", "args")))
+        gi = newg()
+        cases += SYS_SETUP(gi)
+        cases.append(mk(gi, "aergo.system", ci("v1voteBP", [addr]), bno=2))
+        cases.append(mk(gi, "aergo.system", ci("v1voteBP", [addr, peer_id(rng)]), bno=3))
+        cases.append(mk(gi, "aergo.system", ci("v1voteDAO", ["BPCOUNT", addr]), bno=4))
+        for ty in (TRANSFER, NORMAL, CALL, GOV, FEEDELEG):
+            gi = newg()                                  # as the recipient of every kind of transaction
+            cases.append(mk(gi, addr, "" if ty != GOV else ci("v1stake", []), amt=5, ty=ty, pub=False))
     # enterprise conf values with the storage separator and other special characters, followed by the
     # transactions that load the stored conf again (enableConf, append/removeConf: Conf.Validate path)
     cert = "dGVzdAo="
